@@ -311,7 +311,7 @@ class Fn:
                 name += str(len(self.consts))
             else:
                 return f"(.lit {self.lean}{name})"
-        self.consts.append((name, lit_val(val), src))
+        self.consts.append((name, lit_val(val), src, val))
         return f"(.lit {self.lean}{name})"
 
     def is_local(self, name) -> bool:
@@ -658,9 +658,15 @@ def gen_imp() -> str:
             if f.uses_log:
                 body = f"(.seq (.assign \"$log\" (.mkList .enil))\n {body})"  # the warnings of this call, in order
             locs = f.locals + (["$it"] if f.uses_it else []) + (["$log"] if f.uses_log else [])
-            for cname, cval, csrc in f.consts:
+            for cname, cval, csrc, pyval in f.consts:
                 L.append(f"/-- constant of `chartparse.{mod}.{qual}`, folded to its live value: `{csrc}` -/")
-                L.append(f"def {lean}{cname} : Val :=\n {cval}\n")
+                if isinstance(pyval, dict):
+                    # a dict constant is emitted through its entries, so that proofs can speak about the list of pairs
+                    ents = ",\n  ".join(f"({lit_val(k)}, {lit_val(x)})" for k, x in pyval.items())
+                    L.append(f"def {lean}{cname}_entries : List (Val × Val) :=\n [{ents}]\n")
+                    L.append(f"def {lean}{cname} : Val := .dict (encEntries {lean}{cname}_entries)\n")
+                else:
+                    L.append(f"def {lean}{cname} : Val :=\n {cval}\n")
             L.append(f"/-- `chartparse.{mod}.{qual}` -/")
             L.append(f"def {lean}Params : List String := [{', '.join(lean_str(p) for p in f.params)}]")
             L.append(f"def {lean}Locals : List String := [{', '.join(lean_str(p) for p in locs)}]")
